@@ -155,9 +155,14 @@ def wb_coq(hist):
 # --------------------------------------------------------------------------
 # black-box scenarios
 
-def bb_cfg(tol="5m", hooks="hmac", secrets=("raw:k1",), other=True, names=None):
+def bb_cfg(tol="5m", hooks="hmac", secrets=("raw:k1",), other=True, names=None, ref=False):
     s = G.PRELUDE
-    if hooks == "hmac":
+    if hooks == "hmac" and ref:
+        # the route takes its keys from the secret pool only (secret_ref, no inline secret); every version is valid throughout the scenario
+        vers = [{"id": "P%d" % i, "value": sv, "valid_from": 1_600_000_000} for i, sv in enumerate(secrets)]
+        s += G.secrets_block(vers)
+        s += G.route_block("/hooks", G.hmac_block(secret_refs=[v["id"] for v in vers], tolerance=tol))
+    elif hooks == "hmac":
         kw = {}
         if names:
             kw = {"sig": names[0], "ts": names[1], "nonce": names[2]}
@@ -186,8 +191,8 @@ def bb_scenarios(rng, tier):
     def scen(name, kind, cfgs, steps):
         sc.append({"name": name, "_kind": kind, "configs": [c["text"] for c in cfgs], "_cfgs": cfgs, "steps": steps})
 
-    def cfg(tol="5m", hooks="hmac", secrets=("raw:k1",), unloadable=False):
-        text = bb_cfg(tol, hooks, secrets)
+    def cfg(tol="5m", hooks="hmac", secrets=("raw:k1",), unloadable=False, ref=False):
+        text = bb_cfg(tol, hooks, secrets, ref=ref)
         if unloadable:
             # a LATER route whose secret cannot be loaded: reloading this file is refused as a whole
             text += G.route_block("/zlate", G.hmac_block(secrets=["env:VERIF_C09_UNSET_SECRET"], tolerance="5m"))
@@ -241,6 +246,14 @@ def bb_scenarios(rng, tier):
          [{"op": "load", "cfg": 0}, req(t, R), {"op": "load", "cfg": 1}, req(t + 2, R), {"op": "load", "cfg": 0}, req(t + 3, R)])
     scen("reload-readd-tolerance-shrunk", "replay-after-readd", [cfg("5m"), cfg(hooks="none"), cfg("2s")],
          [{"op": "load", "cfg": 0}, req(t, R), {"op": "load", "cfg": 1}, {"op": "load", "cfg": 2}, req(t + 2 * SEC, R)])
+    # 2a. the same with routes that take their keys from the secret pool only (secret_ref): unchanged file, a version added, tolerance shrunk
+    Rp = bb_request(ts, "rl-ref-1")
+    scen("reload-same-secret-ref", "replay-after-reload", [cfg(ref=True)],
+         [{"op": "load", "cfg": 0}, req(t, Rp), {"op": "load", "cfg": 0}, req(t + 5, Rp), {"op": "load", "cfg": 0}, {"op": "load", "cfg": 0}, req(t + DUR["5m"], Rp)])
+    scen("reload-secret-ref-version-added", "replay-after-reload", [cfg(ref=True), cfg(ref=True, secrets=("raw:k1", "raw:k2"))],
+         [{"op": "load", "cfg": 0}, req(t, Rp), {"op": "load", "cfg": 1}, req(t + 5, Rp), req(t + 6, bb_request(ts, "rl-ref-2", secret=b"k2")), req(t + 7, Rp)])
+    scen("reload-inline-to-secret-ref", "replay-after-reload", [cfg(), cfg(ref=True), cfg()],
+         [{"op": "load", "cfg": 0}, req(t, Rp), {"op": "load", "cfg": 1}, req(t + 5, Rp), {"op": "load", "cfg": 2}, req(t + 6, Rp)])
     # 2b. a REFUSED reload (a later route's secret cannot be loaded) that would have raised this route's tolerance: the running
     #     authenticator - its window and what it remembers - is exactly what it was; a nonce legitimately re-used after the old
     #     window is accepted as before, a replay inside the old window is refused as before
